@@ -45,6 +45,11 @@ CHECKS = {
             "For 8 (quick) / 12 (thorough) pipeline shapes every job of the fault-free run is made to fail in each of 12 metadata-level manifestations (error/assert files, process vanishing, non-zero exit, truncated/missing/ill-typed/extra-key _outs, bad _stage_defs) at enforcement levels disable and error, under the default schedule and with the failing job slowest; oracle: failed (never success or hang) where the manifestation is decided to be fatal, the reported fqname lies in the failing stage, no dependent call started (reference dependency closure), independent jobs untouched, and a restart without the fault completes with the reference outputs without re-running completed jobs.",
             "process-level manifestations through the real mrjob/adapters and auto-retry are not exercised (model job writes what mrjob would); chunk-level type faults and extra keys are fatal only at --strict=error",
             "DESIGN.md 4/C06"),
+    "C07": ("exploration",
+            "bounded-exhaustive (source type, parameter type, binding context) enumeration; accepted programs executed at --strict=error with three output valuations; reference relation and reference validator",
+            "All ordered pairs of a 61-type universe (11 base types incl. two user file types and two structs; arrays to depth 2, typed maps, typed maps of arrays, arrays of typed maps; quick: depth<=1) in 10 binding contexts (stage output, literal, pipeline input, return binding, projection through struct / struct array / typed map of structs, split over array / typed map, wildcard) and all 252 sequences of 2-3 split sources of known/unknown lengths: a reference convertibility relation written from the statement decides must-accept / must-reject / undecided; accepted programs are run on the real runtime at the strictest enforcement level with typical, empty and null-leaf outputs and every delivered argument is checked by the reference validator; rejections must be located inside the offending statement.",
+            "undecided pairs (builtin file/path <-> string, filetype <-> other filetype, map -> struct / map<T>, map<T> -> map, struct literal -> map) are checked for run-time soundness only; multi-point mutations are not enumerated",
+            "DESIGN.md 4/C07"),
     "C08": ("exploration",
             "bounded-exhaustive input enumeration on the real parser/compiler (token sequences, single edits of a corpus, slot substitutions, nesting series, include graphs), crash/hang/position oracle",
             "Every token sequence of length <=3 (thorough 4) over a 90-token adversarial alphabet through ParseSourceBytes/UncheckedParse/ParseValExp/FormatSrcBytes; for each of the repository's ~60 .mro fixtures every single-token deletion/duplication, byte-prefix truncation, byte corruption and token replacement by each alphabet token; every string slot x 14 awkward strings and numeric slot x 25 edge literals; nesting/size series to 10^5 (10^6) and 13 include graphs in isolated subprocesses. Violation: panic, process death (stack overflow), no result within 60-180 s, or an error without a source position.",
